@@ -347,6 +347,15 @@ def body_dataset(ctx, kind):
         ds = builders.cf2d(ny, nx, lat=lat, lon=lon, lat_bounds=latb, lon_bounds=lonb)
     else:
         ds = builders.cf1d(2 + which % 2, 3)
+    if kind == 'cf2d-dart':
+        # ... and a self-intersecting cell (corners listed crosswise): dropped with a warning, it has no triangles
+        lonb, latb = ds['lon_bnds'].values.copy(), ds['lat_bnds'].values.copy()
+        lonb[2, 0] = lonb[2, 0][[0, 2, 1, 3]]
+        latb[2, 0] = latb[2, 0][[0, 2, 1, 3]]
+        ds['lon_bnds'] = (ds['lon_bnds'].dims, lonb)
+        ds['lat_bnds'] = (ds['lat_bnds'].dims, latb)
+    from harness import geomref
+    geomref.check(ctx, ds, ds.ems)
     polygons = ds.ems.polygons
     vertices, triangles, faces_of = triangulate_dataset(ds)
     ctx.check(vertices.ndim == 2 and vertices.shape[1] == 2 and triangles.ndim == 2 and triangles.shape[1] == 3 and len(faces_of) == len(triangles),
